@@ -397,6 +397,80 @@ theorem polyhedron_feature_id_spec (p : Poly K) (dir : V3 K) (seps ceps : K) (r 
           refine ⟨eid, E, a, b, ?_⟩
           rw [← habs]; exact not_le.1 c
 
+/-! ## `ConvexPolyhedron::feature_normal`: edge and vertex normals lie in the normal cone -/
+
+private theorem foldl_add_supporting (q P : V3 K) :
+    letI := fieldNum K sq
+    ∀ (ns : List (V3 K)) (acc : V3 K), acc.dot q ≤ acc.dot P → (∀ n ∈ ns, n.dot q ≤ n.dot P) →
+      (ns.foldl V3.add acc).dot q ≤ (ns.foldl V3.add acc).dot P := by
+  letI : Num K := fieldNum K sq
+  intro ns
+  induction ns with
+  | nil => intro acc h _; simpa using h
+  | cons n ns ih =>
+    intro acc h hall
+    simp only [List.foldl_cons]
+    apply ih
+    · have := hall n (List.mem_cons_self ..)
+      simp only [V3.dot, V3.add] at this h ⊢
+      linarith
+    · intro m hm; exact hall m (List.mem_cons_of_mem _ hm)
+
+/-- **C10 (`feature_normal` of an edge or a vertex of a convex polyhedron)**: the returned normal is the normalised sum
+of the normals of the adjacent faces (`edgeNormalOf n0 n1`, `vertexNormalOf ns`; the closed forms of the C12 model of
+`feature_normal`).  If each of those faces is a supporting face through the point `P` of the feature (`n·q ≤ n·P` for all
+points `q` of the solid), the returned normal is again a supporting direction at `P` over the whole solid — it lies in the
+normal cone of the feature.  (`vertexNormalOf` returns `None` instead of a NaN vector when the sum vanishes.) -/
+theorem feature_normal_in_normal_cone (hs : LawfulSqrt sq) (pts : List (V3 K)) (P : V3 K) (ns : List (V3 K))
+    (hsup : letI := fieldNum K sq; ∀ n ∈ ns, ∀ q ∈ pts, n.dot q ≤ n.dot P) :
+    letI := fieldNum K sq
+    (∀ n0 n1, n0 ∈ ns → n1 ∈ ns → ∀ q, hullMem3 pts q → (edgeNormalOf n0 n1).dot q ≤ (edgeNormalOf n0 n1).dot P) ∧
+    (∀ n, vertexNormalOf ns = some n → ∀ q, hullMem3 pts q → n.dot q ≤ n.dot P) := by
+  letI : Num K := fieldNum K sq
+  have scaled : ∀ (a : V3 K) (s : K), 0 ≤ s → (∀ q ∈ pts, @V3.dot K (fieldNum K sq) a q ≤ @V3.dot K (fieldNum K sq) a P) →
+      ∀ q, hullMem3 pts q → @V3.dot K (fieldNum K sq) (@V3.sdiv K (fieldNum K sq) a s) q ≤
+        @V3.dot K (fieldNum K sq) (@V3.sdiv K (fieldNum K sq) a s) P := by
+    intro a s hs0 ha q hq
+    refine hull3_le sq _ _ pts q hq (fun v hv => ?_)
+    have h := ha v hv
+    have e : ∀ w : V3 K, @V3.dot K (fieldNum K sq) (@V3.sdiv K (fieldNum K sq) a s) w = @V3.dot K (fieldNum K sq) a w / s := by
+      intro w; simp only [V3.dot, V3.sdiv]; ring
+    rw [e, e]
+    exact div_le_div_of_nonneg_right h hs0
+  have hnorm : ∀ a : V3 K, 0 ≤ sq (@V3.normSq K (fieldNum K sq) a) := by
+    intro a
+    apply hs.nonneg
+    simp only [V3.normSq, V3.dot]
+    nlinarith [mul_self_nonneg a.x, mul_self_nonneg a.y, mul_self_nonneg a.z]
+  refine ⟨?_, ?_⟩
+  · intro n0 n1 h0 h1 q hq
+    have hsum : ∀ q ∈ pts, @V3.dot K (fieldNum K sq) (@V3.add K (fieldNum K sq) n0 n1) q ≤
+        @V3.dot K (fieldNum K sq) (@V3.add K (fieldNum K sq) n0 n1) P := by
+      intro v hv
+      have a := hsup n0 h0 v hv
+      have b := hsup n1 h1 v hv
+      simp only [V3.dot, V3.add] at a b ⊢
+      linarith
+    exact scaled _ _ (hnorm _) hsum q hq
+  · intro n hn q hq
+    simp only [vertexNormalOf, tryNew] at hn
+    split_ifs at hn with c
+    injection hn with hn
+    subst hn
+    refine scaled _ _ (hnorm _) ?_ q hq
+    intro v hv
+    apply foldl_add_supporting sq v P ns
+    · simp [V3.dot, V3.zero]
+    · intro m hm; exact hsup m hm v hv
+
+/-- non-vacuity: two faces of the unit cube through the corner `(1,1,1)` -/
+example : ∀ n ∈ ([⟨1, 0, 0⟩, ⟨0, 1, 0⟩] : List (V3 ℚ)), ∀ q ∈ ([⟨1, 1, 1⟩, ⟨-1, 1, 1⟩, ⟨1, -1, -1⟩] : List (V3 ℚ)),
+    n.x * q.x + n.y * q.y + n.z * q.z ≤ n.x * 1 + n.y * 1 + n.z * 1 := by
+  intro n hn q hq
+  simp only [List.mem_cons, List.not_mem_nil, or_false] at hn hq
+  rcases hn with rfl | rfl <;> rcases hq with rfl | rfl | rfl <;> norm_num
+
+
 /-! ## `ConvexPolygon::support_feature_id_toward` (2-D) -/
 
 /-- **C10 (`ConvexPolygon::support_feature_id_toward`, documented angular tolerance)**: with `ns` the edge normals of the
